@@ -43,6 +43,7 @@ type Contract struct {
 	Modular  bool // never inline at call sites even if it has no ensures
 	NoBody   bool
 	EosExit  bool
+	InlineBlocks, InlineDepth int
 	Witness  map[string]string
 	Unordered map[int]string // map-range ordinal -> the only entry point from which the function may be reached
 	UsesOnly []UsesOnly
@@ -70,7 +71,7 @@ type SpecFunc struct {
 	Opaque bool
 }
 
-var kwRe = regexp.MustCompile(`^(func|spec|preserved|eosexit|requires|ensures|decreases|loop|safe|modular|terminates|witness|witnessgo|unordered|usesonly|mapwrite|callsite|nobody|end)\b`)
+var kwRe = regexp.MustCompile(`^(func|spec|preserved|internal|inline|eosexit|requires|ensures|decreases|loop|safe|modular|terminates|witness|witnessgo|unordered|usesonly|mapwrite|callsite|nobody|end)\b`)
 
 func (e *Engine) loadContracts() error {
 	e.contracts = map[string]*Contract{}
@@ -157,6 +158,14 @@ func (e *Engine) parseContractFile(file, pkgPath, data string) error {
 			return c, nil
 		}
 		switch kw {
+		case "internal":
+			// internal <function> <pkg>,<pkg>: may be called only from these packages (checked on the call graph)
+			if len(fields) >= 3 {
+				if e.internal == nil {
+					e.internal = map[string][]string{}
+				}
+				e.internal[fields[1]] = strings.Split(fields[2], ",")
+			}
 		case "preserved":
 			// preserved <pred> <type> owners <pkg>,<pkg>,...
 			if len(fields) >= 5 && fields[3] == "owners" {
@@ -269,6 +278,12 @@ func (e *Engine) parseContractFile(file, pkgPath, data string) error {
 			cur.Safe = true
 		case "modular":
 			cur.Modular = true
+		case "inline":
+			// inline <max blocks> <max depth>: how far callees without contract are inlined
+			if len(fields) >= 3 {
+				cur.InlineBlocks, _ = strconv.Atoi(fields[1])
+				cur.InlineDepth, _ = strconv.Atoi(fields[2])
+			}
 		case "eosexit":
 			cur.EosExit = true // every loop that reads a token leaves when the read hits the end of the stream
 		case "nobody":
